@@ -777,7 +777,7 @@ def selftest_descriptor():
 
 def plan(tier):
     n = 16
-    per = 1200 if tier == 'quick' else 20000
+    per = 1000 if tier == 'quick' else 20000
     return [dict(kind='grid')] + [dict(kind='hyp', n=per, max_leaves=(4, 6, 8, 12)[i % 4]) for i in range(n - 1)]
 
 
